@@ -4,6 +4,9 @@
 TIER="$1"; shift
 cd "$(dirname "$0")/.." || exit 2
 export VERIF_EVIDENCE_DIR=/tmp/verif-seed-sweep-evidence VERIF_REPLAY_DIR=/tmp/verif-seed-sweep-replays
+# always test the current /repo tree: rebuild first (a previous mutant / seeded run may have left a
+# binary built from a modified tree)
+(cd harness && CARGO_NET_OFFLINE=true cargo build --offline -q --bin verif) || { echo "build failed"; exit 2; }
 bad=0
 for seed in "$@"; do
   for i in 01 02 03 04 05 06 07 08 09 10 11 12 13 14 15 16 17 18 19 20; do
